@@ -67,6 +67,29 @@ def readSjisAligned (c : Codec) (a : BinArchive) (r : Reader) : Res (Str × Read
   | some b => .ok (c.dec b, ⟨alignUp (r.pos + b.length + 1)⟩)
   | none => .err .Unterminated
 
+/-- `read_bytes(count)` with the cursor in every case (the harness reads `tell()` back even after
+a failure): result, and the reader left behind. -/
+def readBytesFull (a : BinArchive) (r : Reader) (count : Nat) : Res Bytes × Reader :=
+  match readBytes a r count with
+  | .ok (b, r') => (.ok b, r')
+  | .err e => (.err e, ⟨readBytesFailPos a r count⟩)
+  | .panic => (.panic, r)
+
+/-- `read_shift_jis_string` before decoding, with the cursor in every case: on success the
+cursor is aligned up to 4 after the terminator; on failure (`UnterminatedString`) every byte up
+to the end of the data has been consumed. -/
+def readSjisRawFull (a : BinArchive) (r : Reader) : Res Bytes × Reader :=
+  match cstrBytes (a.data.drop r.pos) with
+  | some b => (.ok b, ⟨alignUp (r.pos + b.length + 1)⟩)
+  | none => (.err .Unterminated, ⟨if r.pos < a.size then a.size else r.pos⟩)
+
+def readI8 (a : BinArchive) (r : Reader) : Res (Int × Reader) :=
+  (readU8 a r).map (fun p => (toSigned 8 p.1, p.2))
+def readI16 (a : BinArchive) (r : Reader) : Res (Int × Reader) :=
+  (readU16 a r).map (fun p => (toSigned 16 p.1, p.2))
+def readI32 (a : BinArchive) (r : Reader) : Res (Int × Reader) :=
+  (readU32 a r).map (fun p => (toSigned 32 p.1, p.2))
+
 end Reader
 
 /-- `BinArchiveWriter`: state is the archive and the cursor. -/
@@ -93,6 +116,13 @@ def writeString (w : Writer) (v : Option Str) := w.step 4 (fun a p => a.writeStr
 def writeCString (w : Writer) (v : Str) := w.step 4 (fun a p => a.writeCString p v)
 def writePointer (w : Writer) (v : Option Nat) := w.step 4 (fun a p => a.writePointer p v)
 def writeLabel (w : Writer) (v : Str) := w.step 0 (fun a p => a.writeLabel p v)
+
+def writeF32Bits (w : Writer) (v : Nat) := w.step 4 (fun a p => a.writeUInt p 4 v)
+def writeI8 (w : Writer) (v : Int) := w.writeU8 (ofSigned 8 v)
+def writeI16 (w : Writer) (v : Int) := w.writeU16 (ofSigned 16 v)
+def writeI32 (w : Writer) (v : Int) := w.writeU32 (ofSigned 32 v)
+def tell (w : Writer) : Nat := w.pos
+def size (w : Writer) : Nat := w.archive.size
 
 /-- `write_bytes`: byte by byte; a failure leaves the bytes already written in place and the
 cursor after them, so the writer state is returned in every case. -/
